@@ -226,17 +226,28 @@ def rule_r4(ctx, rep):
                         rep.oblige(("R4", code.member), False)
                         rep.add("R4", fi.qname, n.elts[0], f"{code.member} is not guarded by a comparison of a count with a constant", fi.loc(n))
                         continue
-                    names_in = [v for v in free_names(g.test) if v not in ("len",)]
-                    if len(names_in) != 1:
-                        rep.notes.append(f"{fi.qname}: threshold guard `{norm(g.test)}` not evaluated (more than one variable)")
+                    # the count is whatever is compared with the constant: replace that operand by a variable and evaluate
+                    import copy as _copy
+                    test2 = _copy.deepcopy(g.test)
+                    replaced = 0
+                    for c in ast.walk(test2):
+                        if isinstance(c, ast.Compare) and len(c.ops) == 1:
+                            l_c = prog.const(mi, c.left)
+                            r_c = prog.const(mi, c.comparators[0])
+                            if isinstance(r_c, int) and not isinstance(r_c, bool) and not isinstance(l_c, int):
+                                c.left = ast.Name(id="__count__", ctx=ast.Load())
+                                replaced += 1
+                            elif isinstance(l_c, int) and not isinstance(l_c, bool) and not isinstance(r_c, int):
+                                c.comparators[0] = ast.Name(id="__count__", ctx=ast.Load())
+                                replaced += 1
+                    ast.fix_missing_locations(test2)
+                    if replaced != 1 or [v for v in free_names(test2) if v != "__count__"]:
+                        rep.notes.append(f"{fi.qname}: threshold guard `{norm(g.test)}` not evaluated (cannot single out the count)")
                         continue
-                    v = names_in[0]
-                    as_list = any(isinstance(c, ast.Call) and isinstance(c.func, ast.Name) and c.func.id == "len" and c.args and isinstance(c.args[0], ast.Name)
-                                  and c.args[0].id == v for c in ast.walk(g.test))
                     for k in (0, t - 1, t, t + 1):
-                        env = {v: (["w"] * k if as_list else k)}
+                        env = {"__count__": k}
                         try:
-                            res = eval_at(ctx, fi, g.test, env)
+                            res = eval_at(ctx, fi, test2, env)
                         except PEvalUnsupported as ex:
                             raise AnalysisError(f"{fi.loc(g)}: cannot evaluate threshold guard `{norm(g.test)}`: {ex}")
                         want = k < t
@@ -274,6 +285,13 @@ def rule_r5_r6(ctx, rep):
                     v = prog.const(mi, n.args[0])
                     if isinstance(v, str):
                         got.add(v)
+                    elif isinstance(n.args[0], ast.Name):
+                        # the element name is the variable of a loop over a constant tuple of names
+                        for lp_ in ast.walk(gt.node):
+                            if isinstance(lp_, ast.For) and isinstance(lp_.target, ast.Name) and lp_.target.id == n.args[0].id and any(x is n for x in ast.walk(lp_)):
+                                vs = prog.const(mi, lp_.iter)
+                                if isinstance(vs, (tuple, list)) and all(isinstance(x, str) for x in vs):
+                                    got |= set(vs)
     for name in sorted(want):
         rep.count("text collections over descendants")
         ok = name in got
